@@ -420,7 +420,26 @@ def spec_zone_forms(ctx):
     ctx.count("kernels reading filled-grid zones of the spec x kernel kinds x lookup routes: agree with the methods", n_ok)
 
 
+def translated_filled_grid(ctx):
+    """class FilledGrid translated from source on every run (harness/gen/filled_translate.py: set expressions, generators over
+    product / enumerate / range, two worlds for isinstance(x, FilledGrid); fail-closed) and proved equal to Model/Filled.v"""
+    from gen import filled_translate
+    from vcommon import paths
+    name = "dialects/filled/types.py: class FilledGrid is inside the translated fragment (generated model Gen_C12_src.v)"
+    try:
+        body = filled_translate.generate(paths.REPO)
+    except Exception as e:
+        ctx.obligation(name, False, f"{type(e).__name__}: {e}"[:300])
+        return
+    ctx.obligation(name, True)
+    ok, log = coqrun.compile_lemma_file(ctx.bdir, "Gen_C12_src", body)
+    closed = log.count("Closed under the global context")
+    ctx.obligation("the translated fill / vacate / get_view / shift / scale / repeat / positions / __eq__ equal the hand model for every grid, vacancy list and "
+                   "argument (src_*_eq), closed under the global context", ok and closed >= 8, log[-600:])
+
+
 def run(ctx):
+    translated_filled_grid(ctx)
     ctx.rule = ("chains of fill/vacate/shift/scale/repeat/get_view/get_parent from a grid built from positions: exhaustive = every vacancy subset of "
                 "the 1x3, 2x2, 2x3 grids x a fixed list of second operations (all views of length <= 2 incl. repeated and reversed indices, "
                 "repeat counts 0-3, shift, scale, fill, vacate, parent); random chains up to length 8 over 6 shapes; non-trivial = distinct "
